@@ -66,7 +66,7 @@ def dataOfJson (j : Lean.Json) : Option DataIn :=
     pure { trace := trace, lcid := getNat j "lcid",
            cid := { values := values, tetraplets := tets, serviceResults := srs, canonElements := elems, canonResults := cres } }
 
-/-- canon stores are not modelled yet: data holding canon results is outside the fragment -/
+/-- does the data hold canon results (unused since canon stores are modelled; kept for ad-hoc probes) -/
 def hasCanonStores (j : Lean.Json) : Bool :=
   let ci := (field j "cid_info").getD Lean.Json.null
   !(objPairs ((field ci "canon_result_store").getD Lean.Json.null)).isEmpty || !(objPairs ((field ci "canon_element_store").getD Lean.Json.null)).isEmpty
